@@ -31,6 +31,11 @@ def key(t):
     return repr(t)
 
 
+def _is_bool(t, val):
+    """Strict test for the constants True / False (1 == True in Python, so tuple equality is not enough)."""
+    return isinstance(t, tuple) and len(t) == 2 and t[0] == "c" and t[1] is val
+
+
 def is_const(t):
     return isinstance(t, tuple) and t and t[0] == "c"
 
@@ -125,9 +130,9 @@ def simp(t):
             return a
         if c[0] == "not":
             return simp(("ite", c[1], b, a))
-        if a == TRUE and b == FALSE:
+        if _is_bool(a, True) and _is_bool(b, False):
             return c
-        if a == FALSE and b == TRUE:
+        if _is_bool(a, False) and _is_bool(b, True):
             return simp(("not", c))
         a2, b2 = assume(a, c, True), assume(b, c, False)
         if (a2, b2) != (a, b):
@@ -194,6 +199,18 @@ def simp(t):
         a, b = t[1], t[2]
         if a[0] == "list" and b[0] == "list":
             return ("list", a[1] + b[1])
+        return t
+    if h == "truthy":
+        x = t[1]
+        if is_const(x):
+            return C(bool(x[1]))
+        if x[0] == "list":
+            return C(len(x[1]) > 0)
+        return t
+    if h == "strcat":
+        a, b = t[1], t[2]
+        if is_const(a) and is_const(b) and isinstance(a[1], str) and isinstance(b[1], str):
+            return C(a[1] + b[1])
         return t
     if h == "call":
         name, args = t[1], t[2]
@@ -315,7 +332,7 @@ class State:
 class SymX:
     """Symbolic execution of one function (methods: with `self` bound to a concrete class)."""
 
-    def __init__(self, ctx, func, cls_name=None, inline_depth=3):
+    def __init__(self, ctx, func, cls_name=None, inline_depth=3, no_inline=()):
         self.ctx = ctx
         self.prog = ctx.prog
         self.func = func
@@ -323,6 +340,7 @@ class SymX:
         self.loops = {}
         self._ids = itertools.count(1)
         self.inline_depth = inline_depth
+        self.no_inline = set(no_inline)
         self.calls_inlined = []
         self.final = None
         self.ret = None
@@ -423,7 +441,47 @@ class SymX:
             return st
         if isinstance(s, ast.Assert):
             return st
+        if isinstance(s, ast.With):
+            for it in s.items:
+                v = self.expr(it.context_expr, st, f, depth)
+                if it.optional_vars is not None:
+                    self.assign(it.optional_vars, v, st, f, depth)
+            return self.block(s.body, st, f, depth)
+        if isinstance(s, ast.Try):
+            return self.try_stmt(s, st, f, depth)
+        if isinstance(s, (ast.Import, ast.ImportFrom, ast.Global, ast.Nonlocal)):
+            return st
+        if isinstance(s, ast.Delete):
+            st.effects.append((self._alive(st), "delete", C(src(s))))
+            return st
         raise Unsupported("statement %s not supported by the symbolic executor (%s)" % (type(s).__name__, f.where(s)))
+
+    def try_stmt(self, s, st, f, depth):
+        """try/except with one handler: an exception is assumed to arise at the first statement of the body that
+        contains a (non-logging) call; the handler runs on the state reached before that statement."""
+        if len(s.handlers) != 1 or s.orelse:
+            raise Unsupported("try statement with %d handlers / else (%s)" % (len(s.handlers), f.where(s)))
+        h = s.handlers[0]
+        tid = next(self._ids)
+        split = len(s.body)
+        for i, b in enumerate(s.body):
+            has_call = any(isinstance(n, ast.Call) and not call_name(n).startswith("logging.") for n in ast.walk(b))
+            if has_call:
+                split = i
+                break
+        pre = self.block(s.body[:split], st.copy(), f, depth)
+        body = self.block(s.body[split:], pre.copy(), f, depth)
+        hst = pre.copy()
+        if h.name:
+            hst.env[h.name] = ("exc", tid)
+        hst = self.block(h.body, hst, f, depth)
+        self.tries = getattr(self, "tries", {})
+        self.tries[tid] = {"node": s, "handler": h, "type": src(h.type) if h.type is not None else None,
+                           "first_call_stmt": s.body[split] if split < len(s.body) else None}
+        out = self.merge(("raised", tid), hst, body)
+        if s.finalbody:
+            out = self.block(s.finalbody, out, f, depth)
+        return out
 
     def _alive(self, st):
         conds = []
@@ -676,6 +734,19 @@ class SymX:
                 return self._listy(init, depth + 1)
         return False
 
+    def _stringy(self, t):
+        if is_const(t):
+            return isinstance(t[1], str)
+        if t[0] in ("strcat", "fstr"):
+            return True
+        if t[0] == "call" and t[1] in ("str", "repr", "prob_to_str"):
+            return True
+        if t[0] == "ite":
+            return self._stringy(t[2]) or self._stringy(t[3])
+        if t[0] == "mcall" and t[2] in ("replace", "join", "format", "strip", "lower", "upper"):
+            return True
+        return False
+
     def binop(self, op, a, b):
         if isinstance(op, ast.Add):
             if self._listy(a) or self._listy(b):
@@ -685,8 +756,8 @@ class SymX:
                     return C(a[1] + b[1])
                 except TypeError:
                     pass
-            if (is_const(a) and isinstance(a[1], str)) or (is_const(b) and isinstance(b[1], str)):
-                return ("strcat", a, b)
+            if self._stringy(a) or self._stringy(b):
+                return simp(("strcat", a, b))
             return mk_add(a, b)
         if isinstance(op, ast.Sub):
             return mk_add(a, negate(b))
@@ -820,7 +891,8 @@ class SymX:
             if m is not None and depth < self.inline_depth:
                 return self.inline(m, (("v", "self"),) + args, kws, st, depth)
         callees = self.ctx.cg.resolve(c, f)
-        if isinstance(c.func, ast.Name) and len(callees) == 1 and callees[0].cls is None and depth < self.inline_depth:
+        if isinstance(c.func, ast.Name) and len(callees) == 1 and callees[0].cls is None and depth < self.inline_depth \
+                and callees[0].name not in self.no_inline:
             return self.inline(callees[0], args, kws, st, depth)
         if isinstance(c.func, ast.Attribute) and not name.startswith(("math.", "logging.", "random.", "copy.", "time.")):
             recv = ev(c.func.value)
